@@ -31,6 +31,7 @@ fn must_reject(b: &BadOp, mid: bool) -> bool {
     match b {
         BadOp::WrongTxIdx(_) | BadOp::HugeTxIdx | BadOp::FinaliseWrongCount(_) => true,
         BadOp::OtherTimestamp | BadOp::OtherHash => mid,
+        BadOp::ZeroIdxOtherHash | BadOp::ZeroIdxExistingHash | BadOp::OtherHashAndTimestamp | BadOp::WrongIdxOtherTimestamp => mid,
         BadOp::ExistingHash | BadOp::InitForeignGenesis => true,
         BadOp::CommitMidBlock | BadOp::ReorgMidBlock => mid,
         BadOp::BothEncodings | BadOp::BothEncodingsHexBad | BadOp::BothEncodingsB64Bad | BadOp::NeitherEncoding => true,
@@ -61,10 +62,18 @@ impl Prop for C05 {
         let rng = Rng::new(seed);
         let p = profile(&mut rng.derive("profile"));
         let mut g = Gen::new(rng.derive("workload"), &p);
-        case_of(&g.scenario())
+        let mut sc = g.scenario();
+        // while the chain consists of the genesis block only: its hash offered again for block 1
+        let mut r = rng.derive("genesis-only");
+        if let Some(at) = sc.ops.iter().position(|o| matches!(o, Op::Init { .. })) {
+            if r.chance(1, 3) {
+                sc.ops.insert(at + 1, Op::Bad(if r.chance(1, 2) { BadOp::ExistingHash } else { BadOp::FinaliseExistingHash }));
+            }
+        }
+        case_of(&sc)
     }
     fn rule(&self) -> String {
-        "case = seeded valid history with out-of-protocol / malformed calls (21 kinds) injected at block boundaries and mid-block (after tx 0..k, after parked or failed txs). Oracles: (1) every injected call of a kind the statement lists must return an error; (2) for every injected call answered with an error (or silently ignored), obs before == obs after (non-executing getters mid-block, full obs at boundaries); (3) a clean twin runs the same history without the injected calls: every per-call result and sampled boundary obs must be equal, which exposes residue of calls that failed after partial execution. distinct = sha256 of op list; non-trivial = at least one injected call was rejected mid-block and compared".into()
+        "case = seeded valid history with out-of-protocol / malformed calls (25 kinds, incl. calls with two fields wrong at once and the genesis hash offered again while the chain holds nothing else) injected at block boundaries and mid-block (after tx 0..k, after parked or failed txs). Oracles: (1) every injected call of a kind the statement lists must return an error; (2) for every injected call answered with an error (or silently ignored), obs before == obs after (non-executing getters mid-block, full obs at boundaries); (3) a clean twin runs the same history without the injected calls: every per-call result and sampled boundary obs must be equal, which exposes residue of calls that failed after partial execution. distinct = sha256 of op list; non-trivial = at least one injected call was rejected mid-block and compared".into()
     }
     fn assumptions(&self) -> Vec<String> {
         vec![
